@@ -329,6 +329,18 @@ def run(ctx):
         envs, _ = choose_inputs(prog, gp, rnd, ninputs)
         res.recheck(ctx, im)
         res.add(prog, gp.text, ev, envs)
+        if i % 8 == 0 and res.items:
+            # an evaluator that held the previous program, was recompiled to this one and then copied routes like this one
+            import copy as _copy
+
+            try:
+                moved = im.construct(res.items[0][1])[1]
+                moved.recompile(gp.text)
+                dup = (_copy.copy if i % 16 else _copy.deepcopy)(moved)
+                for env in envs[:6]:
+                    check_case(ctx, im, prog, gp.text, dup, env, "copy-after-recompile")
+            except Exception:  # noqa: BLE001
+                ctx.count("copy-after-recompile/not-possible")
         for env in envs:
             sel = check_case(ctx, im, prog, gp.text, ev, env, "random")
             if sel is not None:
